@@ -80,6 +80,12 @@ var witnessDefs = []witnessDef{
 			{Name: "svc0", SDL: "directive @again(n: Int) repeatable on FIELD\ntype Query {\n  a: String\n}\n"},
 			{Name: "svc1", SDL: "type Query {\n  b: String\n}\n"}}}, Perm: []int{0, 1}})
 	}},
+	{ID: "KF-C05-01", Prop: "C05", Raw: func() json.RawMessage {
+		return mustJSON(mergeCase{U: rig.UniverseSpec{Services: []rig.ServiceSpec{
+			{Name: "svc0", SDL: "type Query {\n  a: Tri\n}\ntype Tri {\n  x: Int\n}\n"},
+			{Name: "svc1", SDL: "type Query {\n  b: Tri\n}\ntype Tri {\n  y: Int\n}\n"},
+			{Name: "svc2", SDL: "type Query {\n  c: Tri\n}\ntype Tri {\n  x: Int\n}\n"}}}, Perm: []int{0, 1, 2}, Edit: "benign-disjoint-identical-triple", EditAt: []int{0, 1}, Benign: true})
+	}},
 	{ID: "KF-C01-13", Prop: "C01", Query: `{ hero { ... on Human { friend { id name } } ... on Human { friend { name } } } }`},
 	{ID: "KF-C02-13", Prop: "C02", Query: `{ hero { ... on Human { friend { id name } } ... on Human { friend { name } } } }`},
 	{ID: "KF-C01-14", Prop: "C01", Query: `query($id: Int) { hero { name age(n: $id) } }`, Vars: map[string]any{"id": 5}},
